@@ -9,6 +9,9 @@ def ord_src(o):
     if k == "value": return f"order({o[1]})"
     return f"order({k}={o[1]!r})"
 
+METHOD_ALIASES = {}      # class name -> {published name of a serialized method: its function name}
+
+
 def gen_class(rnd, i, exhaustive=None):
     nf = rnd.randint(1, 4); nm = rnd.randint(0, 2)
     names = [f"f{j}" for j in range(nf)] + [f"m{j}" for j in range(nm)]
@@ -37,9 +40,12 @@ def gen_class(rnd, i, exhaustive=None):
         # the specification is given by field(metadata=...) or inside Annotated[...]
         if src and rnd.random() < 0.3: return f"    {n}: Annotated[int, {src}] = 0"
         return f"    {n}: int = field(default=0" + (f", metadata={src})" if src else ")")
+    aliased = {n: f"al_{n}" for n in names[nf:] if rnd.random() < 0.3}      # serialized methods published under another name
+    METHOD_ALIASES[cname] = {a: n for n, a in aliased.items()}
     def method_lines(n, o=None):
         src = ord_src(o if o is not None else ords[n])
-        return [f"    @serialized" + (f"(order={src})" if src else ""), f"    def {n}(self) -> int:", "        return 1"]
+        args = ([repr(aliased[n])] if n in aliased else []) + ([f"order={src}"] if src else [])
+        return [f"    @serialized" + (f"({', '.join(args)})" if args else ""), f"    def {n}(self) -> int:", "        return 1"]
     if inherit:
         if rnd.random() < 0.5:
             # a class-level order on the base class too: the subclass' own class-level entries override the inherited ones
@@ -90,6 +96,8 @@ def observe(cls, names, nf):
                 real = list(graphql_schema(query=[q], aliaser=lambda s: s).type_map[cls.__name__].fields)
             else: real = list(deserialization_schema(cls).get("properties", {}))
         except Exception as e: real = "EXC:" + type(e).__name__
+        # (elements are compared by function / field name, whatever the published name)
+        if isinstance(real, list): real = [METHOD_ALIASES.get(cls.__name__, {}).get(x, x) for x in real]
         out[view] = (elts, real)
     return out
 
